@@ -209,12 +209,43 @@ class Exec:
         raise simmod.MachineryError("unknown step %r" % (st,))
 
 
-def run(A, cfg, script, seed=0, hs_adv=False, fair=True):
-    """Execute a script; returns the Sim (with .log, .quiescent_end)."""
+def zrtt_guard(s, early):
+    """Vacuity guards of Retry / resumed runs (machinery, never a verdict): a run that was asked to resume with
+    accepted early data must have done so, its 0-RTT packets must have been seen (and opened) on the wire, a
+    rejecting server must not have accepted, and a Retry run must have sent a Retry."""
+    cfg = s.cfg
+    hs = [e for e in s.log if e["k"] == "ev" and e["cls"] == "HandshakeCompleted"]
+    zr = [e for e in s.log if e["k"] == "pkt" and e.get("type") == "0rtt"]
+    if cfg.get("resume") == "accept" and any(not (e["early"] and e["resumed"]) for e in hs):
+        raise simmod.MachineryError("resume=accept: the handshake completed without accepted early data")
+    if cfg.get("resume") == "reject" and any(e["early"] or e["resumed"] for e in hs):
+        raise simmod.MachineryError("resume=reject: the server resumed the session")
+    rem = s.remembered or {}
+    sendable = rem and rem["max_stream_data"] > 0 and rem["max_data"] > 0 and any(
+        st[0] == "write" and st[1] == "c" and st[3] > 0 and st[2] // 4 < rem["max_streams"] for st in early or [])
+    if cfg.get("resume") and sendable and not zr:
+        raise simmod.MachineryError("resumed run with early writes: no 0-RTT packet on the wire")
+    if any(not e["ok"] for e in zr):
+        raise simmod.MachineryError("the observer could not open a 0-RTT packet")
+    if cfg.get("retry") and "s" in s.eps and not (s.retry["sent"] and s.retry["accepted"]):
+        raise simmod.MachineryError("retry run: a server connection exists without a Retry")
+
+
+def run(A, cfg, script, seed=0, hs_adv=False, fair=True, early=None):
+    """Execute a script; returns the Sim (with .log, .quiescent_end).  `early`: steps executed right after
+    connect(), before anything of the client's first flight is delivered (the writes of a resumed run leave as
+    0-RTT packets); then the handshake prelude (unless hs_adv) and the script as usual."""
     s = simmod.Sim(A, cfg, seed=seed)
     try:
         ex = Exec(s)
-        if hs_adv:
+        if early is not None:
+            s.connect()
+            for st in early:
+                ex.step(st)
+            if not hs_adv:
+                if not s.run_fair(until=lambda: all(ep in s.eps and s.eps[ep]._handshake_confirmed for ep in "cs") and not s.net):
+                    s.ev("note", what="handshake did not complete in the fair prelude")
+        elif hs_adv:
             s.connect()
         else:
             if not s.handshake():
@@ -226,6 +257,8 @@ def run(A, cfg, script, seed=0, hs_adv=False, fair=True):
         s.final_poll()
         s.ev("end", quiescent=bool(s.quiescent_end))
         s.executor = ex
+        if s.cfg.get("resume") or s.cfg.get("retry"):
+            zrtt_guard(s, early)
     finally:
         s.close()
     return s
@@ -276,6 +309,20 @@ def random_script(rnd, n_steps, profile, streams=None, sizes=None):
             out.append(["ncid", rnd.choice("cs"), rnd.randrange(16), rnd.choice([0, 0, 1, 2, 5])])
         elif k == "spoof":
             out.append(["spoof", rnd.randrange(8), rnd.randrange(3)])
+    return out
+
+
+ZRTT_MODES = [{"retry": True}, {"resume": "accept"}, {"resume": "reject"}, {"retry": True, "resume": "accept"},
+              {"retry": True, "resume": "reject"}]
+
+
+def random_early(rnd, streams=None, sizes=None, n=None):
+    """Client writes made right after connect(), before anything is delivered (0-RTT data of a resumed run)."""
+    out = []
+    for _ in range(n or rnd.choice([1, 2, 2, 3, 4])):
+        sid = rnd.choice([x for x in (streams or STREAMS) if initiator(x) == "c"])
+        sz = rnd.choice(sizes or [1, 30, 200, 1100, 1300, 3000, 9000, 20000])
+        out.append(["write", "c", sid, sz, rnd.random() < 0.3])
     return out
 
 
